@@ -35,6 +35,43 @@ def double_sites(model) -> list[str]:
     return sites
 
 
+def f32_rounded_constants(model) -> list[str]:
+    """DOUBLE constants whose value is exactly representable in float32 although it uses
+    13..24 significant bits: 0.7 rounded through float32 is 0.699999988079071 (24 bits),
+    a genuine double 0.7 needs 53 bits, and 0.5 / 3.0 / 1024.0 need <= 12."""
+    from onnx import numpy_helper
+
+    out: list[str] = []
+    for where, t in modelwalk.iter_all_tensors(model):
+        if t.data_type != TensorProto.DOUBLE:
+            continue
+        try:
+            a = numpy_helper.to_array(t).astype(np.float64).reshape(-1)
+        except Exception:  # noqa: BLE001
+            continue
+        a = a[np.isfinite(a) & (a != 0)]
+        a = a[a != np.round(a)]  # integer-valued doubles (1e9, 255.0) say nothing about precision
+        if a.size == 0:
+            continue
+        with np.errstate(over="ignore"):
+            rep = a.astype(np.float32).astype(np.float64) == a
+        if not np.any(rep):
+            continue
+        m, _ = np.frexp(np.abs(a[rep]))
+        mi = (m * 2.0**53).astype(np.uint64)
+        tz = np.zeros(mi.shape, np.int64)
+        for k in (32, 16, 8, 4, 2, 1):
+            mask = (mi & np.uint64((1 << k) - 1)) == 0
+            tz = np.where(mask & (mi != 0), tz + k, tz)
+            mi = np.where(mask & (mi != 0), mi >> np.uint64(k), mi)
+        sig = 53 - tz
+        sus = sig >= 13
+        if np.any(sus):
+            vals = a[rep][sus]
+            out.append(f"{where}: {vals.size} value(s), e.g. {float(vals[0])!r}")
+    return out
+
+
 def _only_f64_floats(fn, sig, params) -> tuple[bool, str]:
     """The x64 jaxpr of the callable involves only float64 floating avals."""
     import jax
@@ -227,6 +264,11 @@ def _check_double(prog: programs.Program, seed: int, rec: dict[str, Any]) -> Non
         return
     draws = [("benign", "benign"), ("f64only", "benign"), ("uniform", "benign")]
     res = programs.differential(prog, draws, seed=seed, eps_floor=EPS64, K=K64)
+    if res.get("model") is not None:
+        sus = f32_rounded_constants(res["model"])
+        rec["obs"]["double_models_scanned_for_f32_rounded_constants"] = 1
+        if sus:
+            rec["violations"].append({"family": prog.family, "program": prog.pid, "kind": "f32_rounded_constant", "cls": "double", "text": f"{prog.pid}: DOUBLE constant(s) that are float32-rounded values: {sus[:3]}"})
     if res.get("random"):
         rec["obs"]["random_model_skipped"] = 1
         return
@@ -401,6 +443,10 @@ def run_case(case: dict[str, Any], tier: str, seed: int) -> dict[str, Any]:
                 model = prog.export(fn=mk_export())
             except Exception as exc:  # noqa: BLE001
                 return {"status": "inconclusive", "reason": "export_raises", "detail": str(exc)[:200]}
+            sus = f32_rounded_constants(model)
+            rec["obs"]["double_models_scanned_for_f32_rounded_constants"] = 1
+            if sus:
+                rec["violations"].append({"family": prog.family, "program": prog.pid, "kind": "f32_rounded_constant", "cls": "double", "text": f"{prog.pid}: DOUBLE constant(s) that are float32-rounded values: {sus[:3]}"})
             draws = [("benign", "benign"), ("f64only", "benign"), ("uniform", "benign")]
             res = programs.differential(prog, draws, seed=seed, eps_floor=EPS64, K=K64, model=model)
             r2 = recs.record_from_differential(prog, res, tag="double:")
